@@ -79,6 +79,7 @@ struct PreA {
 /// obligations common to the stream adapters, after one poll
 fn check_common(c: &ACfg, a: &PreA, out: Out, t: usize, woken_t: bool, s: &v::Snap, present2: bool, len2: usize, len0: usize, try_: bool) {
     let gh = g();
+    let woken_other = gh.task_wakes[1 - t] > 0;
     let occ = fub::snap_occ_pub(s);
     let pulled = gh.up_pulled - a.pulled0;
     let polled_up = gh.up_polls > 0;
@@ -142,6 +143,11 @@ fn check_common(c: &ACfg, a: &PreA, out: Out, t: usize, woken_t: bool, s: &v::Sn
                     }
                     k += 1;
                 }
+            }
+            // C14: upstream pending (it never wakes in this model), no child waker
+            // invoked during the call: the adapter must not wake its own task
+            if gh.child_wakes == 0 {
+                vassert!(!woken_t && !woken_other, "C14:adapter woke its task although no child waker was invoked");
             }
             vcover!(true, "cover:pending");
         }
@@ -296,6 +302,9 @@ pub fn step_for_each(c: &ACfg) {
             let inflight_armed = s.filled > 0 && (woken_t || s.registered);
             let upstream_armed = present2 && polled_up && gh.up_last == 1 && gh.up_waker_task == 1;
             vassert!(inflight_armed || upstream_armed, "C10:Pending and nobody holds the task waker (stuck forever)");
+            if gh.child_wakes == 0 {
+                vassert!(!woken_t && gh.task_wakes[1 - t] == wakes0[1 - t], "C14:adapter woke its task although no child waker was invoked");
+            }
             vcover!(true, "cover:pending");
         }
     }
